@@ -11,17 +11,27 @@ from nopanic import NoPanic
 import audit_facts
 
 RULES = [
+    (r"Grease::new/from_ratio", "fault_percentage <= 50 <= 100 is enforced by is_valid_config before any worker is spawned", ["fault_percentage_validated"]),
+    (r"(Responder|Server)::new/unwrap\(name\(current", "Server::new / Responder::new run only on worker threads, which main creates with thread::Builder::name(..)", ["worker_threads_named"]),
+    (r"Server::new/unwrap\(new\(\)\)", "Poll::new fails only on operating-system resource exhaustion, not as a function of the configuration", []),
+    (r"Server::new/unwrap\(register\(", "Poll::register fails only on operating-system errors, not as a function of the configuration", []),
+    (r"Server::new/unwrap\(parse\(", "`interface:port` was parsed successfully by is_valid_config (udp_socket_addr); the same interface with another u16 port parses too", ["interface_parse_validated"]),
+    (r"Server::new/expect\(bind_health_check_listener", "fails only when another process owns the port (the workers share it through SO_REUSEPORT, clause C15.1)", ["health_listener_reuse_port"]),
+    (r"Server::new/expect\(load_seed", "a plaintext seed always loads; a KMS-protected seed in a build without that KMS fails loudly in every worker (documented build limitation)", ["load_seed_plaintext_ok"]),
+    (r"MsgSigner::from_seed/expect\(arg1\)", "plaintext seeds are validated to be exactly 32 bytes by is_valid_config", ["seed_length_validated"]),
+    (r"MsgSigner::new/unwrap\(fill", "the system random number generator failing is an operating-system condition", []),
+    (r"display_config/unwrap\(persistence_directory", "guarded by persistence_directory().is_some(); every ServerConfig getter is a pure field read", ["config_getters_pure"]),
     # (regex on key, reason, requires)
     (r"MerkleTree::compute_root/panic\('Must have at least one leaf", "compute_root is only called after Responder::is_empty() returned false, and requests/leaves are pushed pairwise", ["merkle_nonempty_before_compute_root"]),
-    (r"MerkleTree::compute_root/index\(self\.levels\[", "children 2i, 2i+1 exist: the level below holds 2*node_count nodes after odd-count padding (relational invariant of the pairing loop)", ["merkle_level_structure"]),
-    (r"MerkleTree::compute_root/index\(self\.levels,", "level <= number of levels: a level vector is pushed whenever levels.len() < level + 1 before it is indexed", ["merkle_level_structure"]),
+    (r"MerkleTree::compute_root/index\(arg1\.levels\[", "children 2i, 2i+1 exist: the level below holds 2*node_count nodes after odd-count padding (relational invariant of the pairing loop)", ["merkle_level_structure"]),
+    (r"MerkleTree::compute_root/index\(arg1\.levels,", "level <= number of levels: a level vector is pushed whenever levels.len() < level + 1 before it is indexed", ["merkle_level_structure"]),
     (r"MerkleTree::compute_root/overflow", "level and node counts are bounded by log2 / the number of leaves (at most 255 per batch, u8 batch size)", ["merkle_level_structure", "batch_size_is_u8"]),
     (r"MerkleTree::compute_root/panic\(assert_eq\)", "after the pairing loop the top level holds exactly one node (node_count == 1)", ["merkle_level_structure"]),
     (r"MerkleTree::compute_root/unwrap\(pop", "the top level holds exactly one node (asserted just before)", ["merkle_level_structure"]),
     (r"MerkleTree::get_paths/(index|overflow|with_capacity|panic)", "index < number of leaves of the batch (enumerate index of requests, pushed pairwise with leaves); sibling exists because odd levels are padded; depth <= 8 for a u8 batch size", ["merkle_level_structure", "paired_pushes", "batch_size_is_u8"]),
     (r"MerkleTree::finalize_output/slice-index", "every tree hash is at least 32 bytes wide for every version", ["merkle_hash_width_ge_32"]),
-    (r"RtMessage::get_field/index\(self\.values", "tags and values always have the same length (pushed, cleared and constructed pairwise)", ["rtmessage_parallel_vectors"]),
-    (r"RtMessage::encode/(index|slice-index)\(self\.values", "num_tags > 1 implies values.len() > 1: tags and values always have the same length", ["rtmessage_parallel_vectors"]),
+    (r"RtMessage::get_field/index\(arg1\.values", "tags and values always have the same length (pushed, cleared and constructed pairwise)", ["rtmessage_parallel_vectors"]),
+    (r"RtMessage::encode/(index|slice-index)\(arg1\.values", "num_tags > 1 implies values.len() > 1: tags and values always have the same length", ["rtmessage_parallel_vectors"]),
     (r"RtMessage::encode/panic\('unexpected length'\)", "encode writes 4 + 4*(n-1) + 4*n + sum(len) bytes, which is what encoded_size computes (io::Write on Vec appends exactly the bytes given)", ["rtmessage_parallel_vectors"]),
     (r"RtMessage::encode/overflow", "running sum of value lengths of coexisting allocations cannot exceed the address space", []),
     (r"RtMessage::encode(_framed)?/with_capacity", "capacity is the total size of buffers that already exist in memory (plus 12)", []),
@@ -31,7 +41,7 @@ RULES = [
     (r"OnlineKey::classic_midp/overflow", "seconds since the epoch * 10^6 overflows u64 only after year 584,000", ["epoch_constant"]),
     (r"Responder::send_responses/unwrap\(name\(current", "a Responder lives inside a Server, which is !Send and was built by Server::new on this thread after unwrapping the same thread name", ["server_thread_named"]),
     (r"Server::compute_delay/duration-sub", "guarded by base.as_secs() >= 1 while the subtrahend is below 256 ms", ["compute_delay_guard"]),
-    (r"Server::handle_health_check/unwrap\(self\.health_listener", "EVT_HEALTH_CHECK is registered only in the branch that stores Some(listener), and handle_health_check is only called for that token", ["health_token_only_when_listener"]),
+    (r"Server::handle_health_check/unwrap\(arg1\.health_listener", "EVT_HEALTH_CHECK is registered only in the branch that stores Some(listener), and handle_health_check is only called for that token", ["health_token_only_when_listener"]),
     (r"Server::process_events/expect\(poll", "a failing poll() is an unrecoverable operating-system condition, not influenced by datagram contents", []),
     (r"Server::process_events/panic\('internal error: entered unreachable", "the only tokens ever registered with this Poll are the three that are matched", ["registered_tokens_subset_of_matched"]),
 ]
